@@ -74,6 +74,7 @@ def streams(rng, tier):
     out.append(("perm", perm))
     out.append(("callsite", callsite_cases(rng, 400 if tier == "quick" else 4000)))
     out.append(("write", [write_case(rng) for _ in range(600 if tier == "quick" else 6000)]))
+    out.append(("lshift", [lshift_case(rng) for _ in range(400 if tier == "quick" else 4000)]))
     return out
 
 
@@ -145,6 +146,19 @@ def write_case(rng):
         lo = rng.randrange(ln)
         pos = list(range(lo, rng.randint(lo + 1, ln)))
     return {"op": "write", "a": a, "form": form, "pos": pos, "vals": rand_vec(rng, len(pos), ladder)}
+
+
+def lshift_case(rng):
+    # v << [values] on a vector whose dtype is WIDER than its present values (it held a None / a wider value that was since
+    # overwritten in place): the result's dtype is the left dtype promoted by every appended value, never narrower
+    ladder = [["b", True], ["i", 3], ["f", (2.5).hex()], ["c", (1.0).hex(), (2.0).hex()], ["N"]]
+    top = rng.randint(1, 3)
+    a = rand_vec(rng, rng.randint(1, 4), ladder[:top + 1] + [["N"]])
+    if all(x[0] == "N" for x in a):
+        a[0] = ladder[0]
+    over = rng.choice([["b", False], ["i", 1]]) if top >= 1 else ["b", False]
+    return {"op": "lshift", "a": a, "over": over, "overwrite": rng.random() < 0.8,
+            "vals": rand_vec(rng, rng.randint(0, 3), ladder[:rng.randint(1, 4)] + ([["N"]] if rng.random() < 0.3 else []))}
 
 
 def callsite_cases(rng, n):
@@ -251,6 +265,15 @@ def observe(case):
             if not isinstance(r, Vector) or isinstance(r, Table):
                 return {"skip": "non-vector result"}
             return {"cols": [{"vals": [V.enc(x) for x in r._underlying], "dt": V.schema_obs(r.schema())}]}
+        if op == "lshift":
+            v = Vector([V.dec(x) for x in case["a"]])
+            if case["overwrite"]:
+                for i in range(len(v)):
+                    v[i] = V.dec(case["over"])               # every None / wide value is gone; the dtype stays
+            before = V.schema_obs(v.schema())
+            r = v << [V.dec(x) for x in case["vals"]]
+            return {"before": before, "left": [V.enc(x) for x in v._underlying],
+                    "cols": [{"vals": [V.enc(x) for x in r._underlying], "dt": V.schema_obs(r.schema())}]}
         if op == "write":
             v = Vector([V.dec(x) for x in case["a"]])
             before = V.schema_obs(v.schema())
@@ -322,6 +345,20 @@ def emit(case, obs):
         if obs["dt"] is None:
             return "CSkip" if (op == "vector" and not case["l"]) else "CBad"
         return f"CInfer {_seq(case['l'])} {V.coq_dtype(obs['dt'])}"
+    if op == "lshift":
+        d = obs["before"]
+        if d is None or obs["cols"][0]["dt"] is None:
+            return "CSkip"
+        steps = []
+        for i, x in enumerate(case["vals"]):
+            nxt = [d[0], True] if x[0] == "N" else [V.join_kind(d[0], V.tag_kind(x)), d[1]]
+            if i == len(case["vals"]) - 1:
+                nxt = obs["cols"][0]["dt"]
+            steps.append(f"CPromote {V.coq_dtype(d)} {V.tag_vinfo(x)} {V.coq_dtype(nxt)}")
+            d = nxt
+        if not case["vals"] and obs["cols"][0]["dt"] != d:
+            return "CBad"
+        return "CAll " + clist(steps)
     if op == "write":
         # the model's promote_with, step by step along the written values; the last step must land on the observed dtype
         d = obs["before"]
@@ -369,6 +406,20 @@ def oracle(case, obs):
         want = V.infer_closed(case["l"])
         if obs["dt"] != want:
             return f"infer: {case['l']} typed {obs['dt']}, rule says {want}"
+        return None
+    if op == "lshift":
+        if obs["before"] is None:
+            return None
+        k, nl = obs["before"]
+        for x in case["vals"]:
+            if x[0] == "N":
+                nl = True
+            else:
+                k = V.join_kind(k, V.tag_kind(x))
+        c = obs["cols"][0]
+        if c["dt"] != [k, nl]:
+            return (f"callsite-lshift: a vector typed {obs['before']} holding {obs['left']} << {case['vals']} is typed "
+                    f"{c['dt']}; promoting the left dtype by every appended value gives {[k, nl]}")
         return None
     if op == "write":
         k, nl = V.infer_closed(case["a"])
